@@ -38,14 +38,17 @@ St0 == [objVal |-> [o \in ObjSet |-> [l \in Leaves |-> Unset]], def |-> Def0]
 NoKw == [l \in Leaves |-> Unset]
 KwSet == [Leaves -> VU]
 NoAsg == [l \in {} |-> Unset]
-CallX(op, tgt, src, l, v, kw, bn, asg, rec) ==
-    [op |-> op, tgt |-> tgt, src |-> src, l |-> l, v |-> v, kw |-> kw, badname |-> bn, asg |-> asg, rec |-> rec]
+CallY(op, tgt, src, l, v, kw, bn, asg, rec, tgts) ==
+    [op |-> op, tgt |-> tgt, src |-> src, l |-> l, v |-> v, kw |-> kw, badname |-> bn, asg |-> asg, rec |-> rec, tgts |-> tgts]
+CallX(op, tgt, src, l, v, kw, bn, asg, rec) == CallY(op, tgt, src, l, v, kw, bn, asg, rec, {})
 Call(op, tgt, src, l, v, kw, bn) == CallX(op, tgt, src, l, v, kw, bn, NoAsg, FALSE)
 \* what set_children_styles may be given: any non-empty set of leaves, each with a value, None or an invalid value
 Asgs == UNION {[S -> VU \cup {Bad}] : S \in (SUBSET Leaves) \ {{}}}
 Calls ==
        {Call("SetObj", o, "", l, v, NoKw, FALSE) : o \in ObjSet, l \in Leaves \cup {"zzz"}, v \in VU \cup {Bad}}
   \cup {Call("SetDef", f, "", l, v, NoKw, FALSE) : f \in FamSet, l \in Leaves \cup {"zzz"}, v \in VU \cup {Bad}}
+  \cup {CallY("SetObjs", "", "", l, v, NoKw, FALSE, NoAsg, FALSE, os) : l \in Leaves, v \in VU \cup {Bad},
+                                                                      os \in {s \in SUBSET (ObjSet \ Colls) : Cardinality(s) = 2}}
   \cup {Call("Reset", "", "", "", Unset, NoKw, FALSE)}
   \cup (IF {"a", "c"} \subseteq ObjSet THEN {Call("Copy", "c", "a", "", Unset, NoKw, FALSE), Call("Copy", "a", "c", "", Unset, NoKw, FALSE)} ELSE {})
   \cup {Call("Show", "", "", "", Unset, kw, bn) : kw \in [Leaves -> VU \cup {Bad}], bn \in BOOLEAN}
@@ -81,6 +84,10 @@ LastWinsAndFrame == [][
     /\ (c.op = "SetObj" /\ last'.ok) =>
           /\ st'.objVal[c.tgt][c.l] = c.v
           /\ OtherLeavesKept(st, st', c.tgt, c.l) /\ OtherObjsKept(st, st', c.tgt) /\ st'.def = st.def
+    /\ (c.op = "SetObjs" /\ last'.ok) =>       \* one argument for several constructors: every one of them, nobody else
+          /\ \A o \in c.tgts : st'.objVal[o][c.l] = c.v /\ OtherLeavesKept(st, st', o, c.l)
+          /\ \A o \in ObjSet \ c.tgts : st'.objVal[o] = st.objVal[o]
+          /\ st'.def = st.def
     /\ (c.op = "SetDef" /\ last'.ok) =>
           /\ st'.def[c.tgt][c.l] = c.v
           /\ OtherDefLeavesKept(st, st', c.tgt, c.l) /\ OtherFamsKept(st, st', c.tgt) /\ st'.objVal = st.objVal
